@@ -254,6 +254,10 @@ pub fn apply_fn_model(name: &str, m: &FnModel, arg: &RV) -> Result<RV, RErr> {
         },
         // the function exists and was called: its error is the outcome. (If it names itself, the Context trait cannot
         // tell the failure from "no such function in this context"; that case is not claimed.)
+        FnModel::Deep => match arg {
+            RV::Int(k) if (0..=80).contains(k) => Ok(RV::Int(*k)),
+            _ => Err(user("deep: not an int in 0..=80".to_string())),
+        },
         FnModel::FailNotFound(inner) => {
             if *inner == name {
                 Err(RErr::Unclaimed("a user function reporting itself as not found".into()))
